@@ -167,6 +167,44 @@ var Mutations = []Mutation{
 		rebuildBody(b, b.Transactions(), etxs)
 		return true
 	}},
+	// ---- C07: body deviates from what the (unchanged, still validly sealed) header commits to
+	{"body-strip-all-outbound-etxs", "C07", false, func(b *types.WorkObject, e *byzEnv) bool {
+		if len(b.OutboundEtxs()) == 0 {
+			return false
+		}
+		b.Body().SetOutboundEtxs(types.Transactions{})
+		return true
+	}},
+	{"body-drop-one-outbound-etx", "C07", false, func(b *types.WorkObject, e *byzEnv) bool {
+		etxs := b.OutboundEtxs()
+		if len(etxs) < 2 {
+			return false
+		}
+		b.Body().SetOutboundEtxs(append(types.Transactions{}, etxs[1:]...))
+		return true
+	}},
+	{"body-strip-all-txs", "C07", false, func(b *types.WorkObject, e *byzEnv) bool {
+		if len(b.Transactions()) == 0 {
+			return false
+		}
+		b.Body().SetTransactions(types.Transactions{})
+		return true
+	}},
+	{"body-drop-one-tx", "C07", false, func(b *types.WorkObject, e *byzEnv) bool {
+		txs := b.Transactions()
+		if len(txs) < 2 {
+			return false
+		}
+		b.Body().SetTransactions(append(types.Transactions{}, txs[:len(txs)-1]...))
+		return true
+	}},
+	{"body-strip-uncles", "C07", false, func(b *types.WorkObject, e *byzEnv) bool {
+		if len(b.Uncles()) == 0 {
+			return false
+		}
+		b.Body().SetUncles(nil)
+		return true
+	}},
 	// ---- C09: fields derived from the parent
 	{"number+1", "C09", true, func(b *types.WorkObject, e *byzEnv) bool {
 		b.SetNumber(inc(b.Number(common.ZONE_CTX)), common.ZONE_CTX)
@@ -338,7 +376,8 @@ func (w *World) Byzantine(n *Node, head common.Hash, m Mutation, arg int, start 
 			_ = err
 		}
 	}
-	if !m.Reseal {
+	bodyOnly := len(m.Name) > 5 && m.Name[:5] == "body-"
+	if !m.Reseal && !bodyOnly {
 		// the rewritten content has a fresh pseudo-random hash; with probability 1/difficulty it meets the
 		// target by luck, which is then an honestly sealed block and not a reused seal: not a case
 		h := blk.WorkObjectHeader()
